@@ -28,7 +28,12 @@ impl TryFrom<TirEnvelope> for AnyTir {
     fn try_from(envelope: TirEnvelope) -> Result<Self, Self::Error> {
         let version = TirVersion::try_from(envelope.version.as_str())?;
 
-        let bytes: Vec<u8> = envelope.into();
+        // the content comes straight from the client: a decoding failure is an
+        // error of the request, not a panic
+        let bytes: Vec<u8> = match envelope.encoding {
+            BytesEncoding::Base64 => base64_to_bytes(&envelope.content)?,
+            BytesEncoding::Hex => hex_to_bytes(&envelope.content)?,
+        };
 
         let tir = tx3_tir::encoding::from_bytes(&bytes, version)?;
 
